@@ -58,6 +58,12 @@ def main():
         desc = m.get("summary") or first_line(os.path.join(d, "notes.md"))
         conf = f"{m.get('demo_clean_rc')}/{m.get('demo_mutant_rc')}, {'pass' if m.get('suite_pass') else 'FAIL'}"
         rows.append(f"| {name} | {m['property']} | {desc} | {conf} | {m.get('verdict')} ({m.get('check_wall_s')} s) | {cls} | {STRENGTHENED.get(name, '')} |")
+    n_all = len(rows) - 2
+    n_missed = sum(1 for k, v in STRENGTHENED.items() if "MISSED" in v and os.path.exists(os.path.join(VERIF, "seeded", k)))
+    rows.append("")
+    rows.append(f"Totals: {n_all} confirmed seeded changes; {n_all - n_missed} were caught by the quick check as it stood when the change "
+                f"arrived, {n_missed} were missed (or would have been) and led to the strengthening described in the last column; all "
+                f"{n_all} are caught now and are re-run by `./simcheck selftest sensitivity`.")
     table = "\n".join(rows)
     p = os.path.join(VERIF, "DESIGN.md")
     s = open(p).read()
@@ -66,6 +72,22 @@ def main():
         s = s.replace("SEEDED-TABLE-PLACEHOLDER", f"{begin}\n{end}")
     i, j = s.index(begin), s.index(end)
     s = s[: i + len(begin)] + "\n" + table + "\n" + s[j:]
+    # evidence table
+    rows = ["| check | tier | runs | distinct non-trivial | runs/hour (this box, 16 workers) | faults fired | probes |", "|---|---|---|---|---|---|---|"]
+    for f in sorted(glob.glob(os.path.join(VERIF, "evidence", "*.json"))):
+        e = json.load(open(f))
+        c = e["coverage"]
+        fc = ", ".join(f"{k} {v}" for k, v in sorted(c.get("fault_counts", {}).items(), key=lambda kv: -kv[1]))
+        if len(c.get("python_hash_seeds", [])) > 1:
+            fc = (fc + "; " if fc else "") + f"hash-order schedules: {len(c['python_hash_seeds'])} PYTHONHASHSEEDs"
+        fc = fc or "none apply (histories only)"
+        pc = ", ".join(f"{k} {v}" for k, v in sorted(c.get("probe_counts", {}).items(), key=lambda kv: -kv[1])) or "-"
+        rows.append(f"| {e['property_id']} | {e['tier']} | {c['evaluations']} | {c['distinct_nontrivial']} | {c.get('runs_per_hour')} | {fc} | {pc} |")
+    etable = "\n".join(rows)
+    b2, e2 = "<!-- EVIDENCE-TABLE-BEGIN -->", "<!-- EVIDENCE-TABLE-END -->"
+    if b2 in s:
+        i, j = s.index(b2), s.index(e2)
+        s = s[: i + len(b2)] + "\n" + etable + "\n" + s[j:]
     open(p, "w").write(s)
     print(table)
 
